@@ -154,18 +154,36 @@ impl DefaultMetricSearcher {
         let mut index_data = Vec::new();
         file.read_to_end(&mut index_data)?;
 
-        let mut offset = 0;
+        let mut offset = None;
         let mut sec = 0;
+        // is the next entry the first one of this index file?
+        let mut first_entry = last_pos == SeekFrom::Start(0);
 
         let mut reader = Cursor::new(index_data);
         while let Ok(sec_be) = ReadBytesExt::read_u64::<BigEndian>(&mut reader) {
             sec = sec_be;
             let offset_be = ReadBytesExt::read_u64::<BigEndian>(&mut reader)?;
-            offset = offset_be;
             if sec >= begin_sec {
+                // The head of a file may hold lines of a second whose index entry is in the
+                // previous file (roll-over in the middle of a second, first second of a new
+                // day): when the wanted time precedes everything indexed here, start at 0.
+                offset = Some(if first_entry && sec > begin_sec { 0 } else { offset_be });
                 break;
             }
+            first_entry = false;
         }
+        // An index without any entry belongs to a file that only continues the last second of
+        // the previous file: read it from the start. Otherwise nothing at or after the wanted
+        // second is indexed in this file and the caller tries the next one.
+        let offset = match offset {
+            Some(offset) => offset,
+            None if first_entry => 0,
+            None => {
+                return Err(Error::msg(
+                    "no index entry at or after the wanted second in this file",
+                ))
+            }
+        };
 
         // Cache the idx filename and position
         cached_pos.metric_filename = filename.into();
